@@ -568,21 +568,30 @@ func Run() int {
 		fmt.Fprintf(os.Stderr, "C13: HARNESS ERROR: only %d valid programs found in %s (tests/*.go, examples, std)\n", len(corpus), srcRoot)
 		return 2
 	}
+	// pick: n programs spread evenly over the repository's own sources (tests, examples, std) plus EVERY program of
+	// the shared corpora (package corpus: sole-facility programs; the all-statements program in thorough) within
+	// the token limit
+	shared := func(p Program) bool { return strings.HasPrefix(p.Name, "tiny:") || p.Name == "cross-all-statements" }
 	pick := func(n int, maxToks int) []Program {
-		var pool []Program
+		var pool, extra []Program
 		for _, p := range corpus {
-			if len(p.Toks) <= maxToks {
+			if len(p.Toks) > maxToks {
+				continue
+			}
+			if shared(p) {
+				extra = append(extra, p)
+			} else {
 				pool = append(pool, p)
 			}
 		}
 		if n >= len(pool) {
-			return pool
+			return append(pool, extra...)
 		}
 		var out []Program
 		for i := 0; i < n; i++ {
 			out = append(out, pool[i*len(pool)/n])
 		}
-		return out
+		return append(out, extra...)
 	}
 	r.Set("corpus_candidates", len(corpusAll))
 	r.Set("corpus_valid", len(corpus))
